@@ -80,7 +80,7 @@ def expected_cost_cents(p, t, sc, rates=None):
     return int(round(total * 100))
 
 
-def observe(p, rep, outdir, job_id, scen_id=None, rates=None):
+def observe(p, rep, outdir, job_id, scen_id=None, rates=None, fmt_by_gen=None):
     # the scenario the report is about: the one its definition names (as written by the generator), else the first
     sc = 0
     if scen_id is not None:
@@ -88,7 +88,7 @@ def observe(p, rep, outdir, job_id, scen_id=None, rates=None):
     cols = []
     for c in rep.get("columns") or []:
         cols.append(c.get("id") if isinstance(c, dict) else (c.id if hasattr(c, "id") else str(c)))
-    fmt = effective_format(rep, p)
+    fmt = fmt_by_gen or effective_format(rep, p)       # generated reports: the format the generator says is in force
     tix = {t.fullId: i + 1 for i, t in enumerate(p.tasks)}
     tasks = []
     for t in p.tasks:
@@ -166,7 +166,8 @@ def main(jobs_path, out_path):
                     p = parser.parse(job["text"])
                     for rep in p.reports:
                         if type(rep).__name__ and getattr(rep, "type_spec", None) is not None and rep.type_spec.value == "taskreport":
-                            out.write(json.dumps(observe(p, rep, d, job["id"], (job.get("report_scenario") or {}).get(rep.fullId), job.get("rates"))) + "\n")
+                            out.write(json.dumps(observe(p, rep, d, job["id"], (job.get("report_scenario") or {}).get(rep.fullId), job.get("rates"),
+                                                              (job.get("report_fmt") or {}).get(rep.fullId))) + "\n")
             except Exception:  # noqa: BLE001
                 out.write(json.dumps({"id": job["id"], "error": traceback.format_exc()[-1200:]}) + "\n")
             finally:
